@@ -5,12 +5,13 @@ import Cpl.Driver.OpsEvolve2D
 import Cpl.Driver.OpsBlock
 import Cpl.Driver.OpsRules
 import Cpl.Driver.OpsCtrbl
+import Cpl.Driver.OpsRuleTables
 
 open Cpl.Proto Cpl.Driver
 
 def dispatch (line : String) : String :=
   let (op, a) := parseLine line
-  let handlers : List (String → Args → Option String) := [opsBits, opsEvolve1D, opsEvolve2D, opsBlock, opsRules, opsCtrbl]
+  let handlers : List (String → Args → Option String) := [opsBits, opsEvolve1D, opsEvolve2D, opsBlock, opsRules, opsCtrbl, opsRuleTables]
   match handlers.findSome? (fun h => h op a) with
   | some out => out
   | none => badOp
